@@ -139,12 +139,22 @@ func c15(ctx *Ctx) (*Outcome, error) {
 	// with the flag no check is left - the file must still build and accept the same documents
 	for i := 0; i < 24; i++ {
 		mk := []func() *sg.Schema{
-			func() *sg.Schema { return &sg.Schema{Types: []string{"integer"}, Min: sg.Fp(0), ExMin: false, Max: sg.Fp(255), ExMax: false} },
-			func() *sg.Schema { return &sg.Schema{Types: []string{"integer"}, Min: sg.Fp(-1), ExMin: true, Max: sg.Fp(65536), ExMax: true} },
+			func() *sg.Schema {
+				return &sg.Schema{Types: []string{"integer"}, Min: sg.Fp(0), ExMin: false, Max: sg.Fp(255), ExMax: false}
+			},
+			func() *sg.Schema {
+				return &sg.Schema{Types: []string{"integer"}, Min: sg.Fp(-1), ExMin: true, Max: sg.Fp(65536), ExMax: true}
+			},
 			func() *sg.Schema { return &sg.Schema{Types: []string{"integer"}, Min: sg.Fp(-128), Max: sg.Fp(127)} },
-			func() *sg.Schema { return &sg.Schema{Types: []string{"integer"}, Min: sg.Fp(0), Max: sg.Fp(65535), ExMax: false} },
-			func() *sg.Schema { return &sg.Schema{Types: []string{"integer"}, ExMin: float64(-32769), ExMax: float64(32768)} },
-			func() *sg.Schema { return &sg.Schema{Types: []string{"integer"}, Min: sg.Fp(-2147483649), ExMin: true, Max: sg.Fp(2147483647)} },
+			func() *sg.Schema {
+				return &sg.Schema{Types: []string{"integer"}, Min: sg.Fp(0), Max: sg.Fp(65535), ExMax: false}
+			},
+			func() *sg.Schema {
+				return &sg.Schema{Types: []string{"integer"}, ExMin: float64(-32769), ExMax: float64(32768)}
+			},
+			func() *sg.Schema {
+				return &sg.Schema{Types: []string{"integer"}, Min: sg.Fp(-2147483649), ExMin: true, Max: sg.Fp(2147483647)}
+			},
 		}
 		root := &sg.Schema{Types: []string{"object"}}
 		for k := range mk {
